@@ -170,6 +170,10 @@ def main(argv=None):
     exit_code = 0
     lines = []
     for pack, c, run in runs:
+        # a clause may speak for some of the properties of its contract only (Contract.clause_props = {clause: [properties]})
+        cp = getattr(c, "clause_props", None) or {}
+        if cp:
+            run.results = [r for r in run.results if not any(r.name.endswith("." + k) and a.prop not in props for k, props in cp.items())]
         n = len(run.results)
         d = sum(1 for r in run.results if r.status == "discharged")
         total += n
@@ -361,6 +365,27 @@ def main(argv=None):
                 lines.append("CHECKER-ERROR seeded change %s is no longer caught (exit %s)" % (st["name"], st["exit"]))
                 if exit_code == 0:
                     exit_code = 3
+    # engine conformance (every tier; a few seconds): the interpreter agrees with CPython on the concrete corpus and, with the scalar arguments
+    # made symbolic and pinned by a precondition, through the solver encodings.  Refusing a construct is allowed, disagreeing is not.
+    conformance = None
+    if not os.environ.get("PYVC_NO_CONFORMANCE"):
+        import subprocess
+        conformance = {}
+        for mode, extra in (("concrete", []), ("symbolic", ["--symbolic"])):
+            try:
+                pr = subprocess.run([sys.executable, os.path.join(VERIF, "dev", "conformance", "run.py")] + extra, capture_output=True, text=True, timeout=900,
+                                    env=dict(os.environ, PYVC_REPO=""))
+                last = (pr.stdout.strip().splitlines() or ["{}"])[-1]
+                conformance[mode] = json.loads(last)
+                if pr.returncode != 0 or conformance[mode].get("disagree", 1) != 0 or conformance[mode].get("agree", 0) == 0:
+                    bad_lines = [ln for ln in pr.stdout.splitlines() if ln.startswith(("MISMATCH", "engine-error"))][:3]
+                    lines.append("CHECKER-ERROR engine conformance (%s): the interpreter disagrees with CPython: %s" % (mode, "; ".join(bad_lines)[:600] or pr.stderr[-300:]))
+                    if exit_code == 0:
+                        exit_code = 3
+            except Exception as e:  # noqa
+                lines.append("CHECKER-ERROR engine conformance (%s) could not run: %r" % (mode, e))
+                if exit_code == 0:
+                    exit_code = 3
     n_known_obl = sum(len(rs) for _, rs in known_hit.values())
     ev = {
         "property_id": a.prop,
@@ -384,6 +409,7 @@ def main(argv=None):
             "bounded_checks": bounded,
             "known_findings_reported": sorted(known_hit),
             "seeded_selftest": selftest,
+            "engine_conformance": conformance,
             "cross_solver_rechecks": sum(1 for _, _, run in runs for r in run.results if r.backend.startswith("z3+cvc5")),
             "undecided_clauses": spec.get("undecided_clauses", []),
             "dropped_by_reading": spec.get("dropped", "see DESIGN.md 3.3 (exception/log message arguments not evaluated; float rounding; async exceptions; static attribute lookup)"),
